@@ -1296,7 +1296,10 @@ class GenModel:
                     # (Reshape target, perm, axes), whereas random integers almost never are
                     out[name] = default[::-1].copy() if how == 0 else np.random.default_rng(sub).permutation(default)
                     continue
-                out[name] = make_array(sub, default.dtype, default.shape, ["smallint", "edge", "mixed"][int(rng.integers(0, 3))])
+                style = ["smallint", "edge", "mixed"][int(rng.integers(0, 3))]
+                if default.dtype.kind in "iu" and default.ndim <= 1 and default.size <= 8:
+                    style = "smallint"  # shape-like / repeats-like operands: values like 255 or 2**31 ask the runtimes for gigantic tensors
+                out[name] = make_array(sub, default.dtype, default.shape, style)
         return out
 
     def seeds(self, k=2):
